@@ -6,9 +6,9 @@ from .modelcheck import run_property
 
 def run(tier, seed, verdict):
     quick = tier != "thorough"
-    runs = [mr.ModelRun("MC_Sess_quick.cfg" if quick else "MC_C02_quick.cfg", seed, probes=("dead_ids", "reopen"),
+    runs = [mr.ModelRun("MC_Sess_quick.cfg" if quick else "MC_C02_quick.cfg", seed, probes=("dead_ids", "reopen", "attrs"),
                         name_pools=[0, 1, 2, 4], stride=5 if quick else 8),
-            mr.ModelRun("MC_Sess_links_quick.cfg" if quick else "MC_C02_links.cfg", seed + 1, probes=("reopen",),
+            mr.ModelRun("MC_Sess_links_quick.cfg" if quick else "MC_C02_links.cfg", seed + 1, probes=("reopen", "attrs"),
                         name_pools=[0, 2], stride=1),
             # link, unlink, link again on a small block: link lists that become empty in between
             mr.ModelRun("MC_C02_relink4.cfg", seed + 2, probes=("reopen",), name_pools=[0, 1], stride=2 if quick else 1),
@@ -24,7 +24,11 @@ def run(tier, seed, verdict):
              "projections (all entities, order, attributes incl. None/empty/non-ASCII values, data, link lists, role "
              "links, timestamps) must equal the specification state, which is also what was observable before closing; "
              "calls are issued through a seeded mix of long-lived handles and fresh lookups",
-        assumptions=["data frames and property value lists: the reopen facet of the NixFrame / NixMeta replays (C16, C10)",
+        assumptions=["the descriptive attributes the entity-graph model does not carry (label, unit, calibration, dimension "
+                     "descriptors, tag position / extent / units, section reference / repository, property unit / "
+                     "uncertainty / reference / dependency / value origin, frame units) are set to seeded values on the "
+                     "reached state and compared with themselves across close + reopen (probe 'attrs')",
+                     "data frames and property value lists: the reopen facet of the NixFrame / NixMeta replays (C16, C10)",
                      "HDF5-internal layout and objects unreachable through the public API are not compared"])
     # arrays with their dimension descriptors (own ticks / labels, links, units, labels): the reopen facet of NixDimLink
     from . import runner, dimlink, c05, core
